@@ -27,6 +27,7 @@ case "$CFG" in
   interop-scalar) FEAT="--features serde,bytemuck,mint,rkyv,approx,rand,scalar-math" ;;
   neon)      TARGET="--target aarch64-unknown-linux-gnu"; ZSTD="-Zbuild-std=core"; FEAT="--no-default-features --features libm" ;;
   wasm32)    TARGET="--target wasm32-unknown-emscripten"; ZSTD="-Zbuild-std=core"; FEAT="--no-default-features --features libm"; EXTRA="-Ctarget-feature=+simd128" ;;
+  wasm32-scalar) TARGET="--target wasm32-unknown-emscripten"; ZSTD="-Zbuild-std=core"; FEAT="--no-default-features --features libm,scalar-math" ;;
   *) echo "facts.sh: unknown config $CFG" >&2; exit 2 ;;
 esac
 rm -f "$OUT"
